@@ -646,6 +646,30 @@ def _finish_cut(asm, c, text, hits, kv, secs, kind):
         elif t0 in ('before', 'after', 'before_opt', 'after_opt'):
             # *_opt: a proof hint for a statement that may legitimately be absent (e.g. a helper call that was inlined): if the
             # anchor is not there the hint is dropped -- the obligations it helped then stand or fall on their own
+            if len(tk) > 2 and tk[2] == '*':
+                # every occurrence of the anchor gets the same lines (e.g. one hint that fits every `return;`), so that an
+                # added or removed occurrence neither shifts nor loses a hint
+                t0b = t0.replace('_opt', '')
+                kk = 1
+                while True:
+                    try:
+                        idx = _find_code_occurrence(text, tk[1], kk, '%s of %s' % (t0, fname))
+                    except CutError:
+                        break
+                    if t0b == 'before':
+                        at_ = text.rfind('\n', 0, idx) + 1
+                    else:
+                        e = text.find('\n', idx)
+                        at_ = len(text) if e < 0 else e + 1
+                    lab_ = '%s:%s#%d' % (t0b, tk[1][:40], kk)
+                    inserts.setdefault(at_, []).append((lab_, lines_))
+                    for ck, ctext in _count_clauses([l for _, l in lines_]):
+                        if ck in ('ensures', 'invariant', 'invariant_except_break', 'assert', 'decreases'):
+                            asm.clauses.append({'fn': fname, 'at': lab_, 'kind': ck, 'text': ' '.join(ctext.split())[:300], 'tmpl_line': lines_[0][0]})
+                    kk += 1
+                if kk == 1 and not t0.endswith('_opt'):
+                    raise CutError('anchor lost: %s %r of %s' % (t0, tk[1], fname))
+                continue
             k = int(tk[2]) if len(tk) > 2 else 1
             try:
                 idx = _find_code_occurrence(text, tk[1], k, '%s of %s' % (t0, fname))
